@@ -10,7 +10,7 @@ VARIABLE i
 Init == i = 0
 Next == UNCHANGED i
 N2B(n) == n = 1
-OpOfT(u) == Op(u[1], N2B(u[2]), N2B(u[3]), u[4], N2B(u[5]), N2B(u[6]))
+OpOfT(u) == Op(u[1], u[2], N2B(u[3]), u[4], N2B(u[5]), N2B(u[6]))
 ObsOfT(u) == [tip |-> u[1], revno |-> u[2], exc |-> u[3], ctip |-> u[4], crevno |-> u[5], mtip |-> u[6],
               mrevno |-> u[7], np |-> u[8]]
 \* Conformance with the transcription.  Two deviations of RemoteBranch are part of the model: it does not check last_rev
